@@ -137,7 +137,7 @@ func (w *World) RunJob(spec JobSpec, o JobOpts) (res *JobResult) {
 		res.Nodes = ctx.NumNodes()
 		res.Assumes = x.Assumes
 		res.SolverErrs = solver.Errors
-		res.Slow = append(solver.Slow, fmt.Sprintf("define=%v wait=%v model=%v", solver.TDefine, solver.TWait, solver.TModel))
+		res.Slow = append(solver.Slow, fmt.Sprintf("define=%v wait=%v model=%v sat=%d unsat=%d lazyforks=%d lazydropped=%d", solver.TDefine, solver.TWait, solver.TModel, solver.SatN, solver.UnsatN, x.LazyForks, x.LazyDropped))
 		for _, f := range x.Findings {
 			res.Findings = append(res.Findings, FindingOut{Kind: f.Kind, Msg: f.Msg, Pos: f.Pos, Known: f.Known, Unknown: f.Unknown, Inputs: x.inputsFromModel(f.Model)})
 		}
